@@ -1,6 +1,7 @@
 package main
 
 import (
+	"go/token"
 	"fmt"
 	"strings"
 
@@ -33,6 +34,8 @@ func falseEdgeStarts(fx *Facts, call *ssa.Call) []cfgPos {
 func runC03(c *Ctx) {
 	p, fx := c.P, c.Fx
 	runC03Ready(c)
+	runC03Clean(c)
+	runC03Tree(c)
 	stmtAlloc := p.Func(pkgFramework, "Statement", "Allocate")
 	stmtPipe := p.Func(pkgFramework, "Statement", "Pipeline")
 	checkpoint := c.Anchor("O1", pkgFramework, "Statement", "Checkpoint")
@@ -77,9 +80,6 @@ func runC03(c *Ctx) {
 			}
 			// loops over alternatives (node sets, nodes) are handled by O1b / C05; this rule is for loops over the
 			// members that must ALL succeed: recognised as loops without a checkpoint and whose success edge continues.
-			if len(instrsIn(fn, isCallToFn(checkpoint))) > 0 {
-				continue
-			}
 			// does the success edge stay in the loop (must-all loop) or leave it (first-fit loop)?
 			succStays := false
 			for _, b := range fn.Blocks {
@@ -429,4 +429,95 @@ func runC03Ready(c *Ctx) {
 		c.Check(ok, "O6", "RET", fmt.Sprintf("%s true path#%d: alive − gated ≥ minAvailable", funcKey(fn), i), rp.Pos, "counts alive pods", "a pod set counts as ready for scheduling without enough alive, ungated pods to reach minAvailable (e.g. every pod object is counted): a leftover Failed pod lets an under-populated gang through and its pending pods are bound below the minimum")
 	}
 	c.Floor("O6", "RET ready paths", len(paths), 1)
+}
+
+// C03-O7 (GHOST): a failed AllocateJob leaves the statement as it found it. The ghost bit is "something was placed
+// since the statement was last in the state AllocateJob received it in": set by a successful Statement.Allocate /
+// Pipeline, remembered by Statement.Checkpoint and put back by Statement.Rollback(that checkpoint). Whatever the
+// number of node sets, sub-group sets, pod sets, tasks and nodes, and wherever the checkpoints are taken in the
+// call tree, AllocateJob may return false only with the bit clear: the solvers re-place several victim jobs through
+// the same statement and keep what earlier ones placed, so a partly placed gang left behind by a failed call would
+// be committed with the scenario.
+func runC03Clean(c *Ctx) {
+	p := c.P
+	allocJob := p.Func(pkgActCommon, "", "AllocateJob")
+	stmtAlloc := p.Func(pkgFramework, "Statement", "Allocate")
+	stmtPipe := p.Func(pkgFramework, "Statement", "Pipeline")
+	checkpoint := p.Func(pkgFramework, "Statement", "Checkpoint")
+	rollback := p.Func(pkgFramework, "Statement", "Rollback")
+	if allocJob == nil || stmtAlloc == nil || stmtPipe == nil || checkpoint == nil || rollback == nil {
+		c.Undec("O7", "GHOST", "AllocateJob / Statement anchors", 0, "not found")
+		return
+	}
+	spec := &ghostSpec{
+		Event: func(in ssa.Instruction) (ssa.Value, bool, bool) {
+			call, ok := in.(*ssa.Call)
+			if !ok {
+				return nil, false, false
+			}
+			if cal := calleeOf(call); cal != nil && (sameFunc(cal, stmtAlloc) || sameFunc(cal, stmtPipe)) {
+				return call, false, true // error result: nil (false) = placed
+			}
+			return nil, false, false
+		},
+		Capture: func(in ssa.Instruction) bool {
+			call, ok := in.(*ssa.Call)
+			return ok && calleeOf(call) != nil && sameFunc(calleeOf(call), checkpoint)
+		},
+		Restore: func(in ssa.Instruction) (ssa.Value, bool) {
+			call, ok := in.(ssa.CallInstruction)
+			if !ok || calleeOf(call) == nil || !sameFunc(calleeOf(call), rollback) || len(call.Common().Args) < 2 {
+				return nil, false
+			}
+			return stripLoad(call.Common().Args[1]), true
+		},
+		ResultIdx: 0,
+		BadResult: triT,
+		MaxDepth:  12,
+	}
+	run := p.ghostVerdict(allocJob, spec)
+	key := funcKey(allocJob) + ": a failed gang placement leaves nothing placed in the statement"
+	switch {
+	case run.Undec != "":
+		c.Undec("O7", "GHOST", key, allocJob.Pos(), run.Undec)
+	case run.Events == 0:
+		c.Undec("O7", "GHOST", key, allocJob.Pos(), "no Statement.Allocate/Pipeline reachable from AllocateJob")
+	default:
+		c.Check(len(run.Finds) == 0, "O7", "GHOST", key, allocJob.Pos(),
+			fmt.Sprintf("%d abstract states over the whole placement tree: every 'false' is returned with all placements since entry rolled back", run.States),
+			"AllocateJob can report failure while placements made during the call stay in the statement (a checkpoint is missing, taken too late, or an exit skips the rollback): a scenario solver that goes on with the same statement commits a partly placed gang — "+ghostWhy(p, run))
+	}
+}
+
+// stripLoad: the value behind a load of a local variable that is stored exactly once.
+func stripLoad(v ssa.Value) ssa.Value {
+	if u, ok := v.(*ssa.UnOp); ok && u.Op == token.MUL {
+		if a, ok := u.X.(*ssa.Alloc); ok {
+			var st *ssa.Store
+			n := 0
+			for _, r := range *a.Referrers() {
+				if s, ok := r.(*ssa.Store); ok && s.Addr == ssa.Value(a) {
+					st = s
+					n++
+				}
+			}
+			if n == 1 {
+				return st.Val
+			}
+		}
+	}
+	return v
+}
+
+// C03-O8 (WALK): the pod sets of a workload are collected over the WHOLE sub-group tree. PodGroupInfo.PodSets, the
+// readiness test, GetTasksToAllocate and AddTaskInfo all work on SubGroupSet.GetAllPodSets(): a pod set that the
+// collection does not reach loses its pods ("sub group not found") and the rest of the gang is bound without it.
+func runC03Tree(c *Ctx) {
+	fn := c.Anchor("O8", "pkg/scheduler/api/podgroup_info/subgroup_info", "SubGroupSet", "GetAllPodSets")
+	if fn == nil {
+		return
+	}
+	ok, desc := c.P.treeDescent(fn)
+	c.Check(ok, "O8", "WALK", funcKey(fn)+": collects the pod sets of every nested sub-group set", fn.Pos(), desc,
+		"GetAllPodSets does not descend through the child sub-group sets ("+desc+"): pod sets nested two or more levels below the root are unknown to the workload, their pods are dropped from it and the remaining members are scheduled as a complete gang")
 }
